@@ -43,6 +43,40 @@ def scan(tree):
     return bitor, names
 
 
+def _head(node):
+    if isinstance(node, ast.Subscript):
+        v = node.value
+        return v.id if isinstance(v, ast.Name) else v.attr if isinstance(v, ast.Attribute) else None
+    return None
+
+
+def order_observable(tree) -> bool:
+    """Member order of the unions of this input can be read off its evaluation: every union group (a `|` tree
+    or a Union[...] subscript) has pairwise different members none of which is itself a union / Optional.
+    Otherwise flattening and de-duplication inside typing (cached by ==) decide the order, not the spelling."""
+    def leaves(n):
+        if isinstance(n, ast.BinOp) and isinstance(n.op, ast.BitOr):
+            return leaves(n.left) + leaves(n.right)
+        return [n]
+
+    def flat_ok(ms):
+        if any(_head(m) in ("Union", "Optional") or (isinstance(m, ast.BinOp) and isinstance(m.op, ast.BitOr))
+               for m in ms):
+            return False
+        dumps = [ast.dump(m) for m in ms]
+        return len(set(dumps)) == len(dumps)
+
+    for n in ast.walk(tree):
+        if isinstance(n, ast.BinOp) and isinstance(n.op, ast.BitOr):
+            if not flat_ok(leaves(n)):
+                return False
+        if _head(n) == "Union":
+            ms = n.slice.elts if isinstance(n.slice, ast.Tuple) else [n.slice]
+            if not flat_ok(ms):
+                return False
+    return True
+
+
 def has_constructs(tree) -> bool:
     """any `|` or any documented builtin generic name anywhere (the widest reading: the identity clause is then
     demanded of the fewest inputs)"""
@@ -115,7 +149,7 @@ def check_string(s: str, annotation: bool, transform=None) -> list[dict]:
         return fails
     # the same with union members in order, where the order is observable
     ov, ow = L.struct(v, ordered=True), L.struct(w, ordered=True)
-    if ov != ow and not L.union_orders_ambiguous(ov) and not L.union_orders_ambiguous(ow):
+    if ov != ow and order_observable(tree) and not L.union_orders_ambiguous(ov, ow):
         fails.append(dict(base, clause="meaning", symptom="output evaluates to the union members in a different order",
                           got=repr(w), expected=repr(v)))
     return fails
